@@ -31,7 +31,7 @@ func (r *Rng) Intn(n int) int {
 
 // Range returns a value in [lo,hi].
 func (r *Rng) Range(lo, hi int) int { return lo + r.Intn(hi-lo+1) }
-func (r *Rng) Bool() bool          { return r.Uint64()&1 == 1 }
+func (r *Rng) Bool() bool           { return r.Uint64()&1 == 1 }
 
 // Chance returns true with probability num/den.
 func (r *Rng) Chance(num, den int) bool { return r.Intn(den) < num }
